@@ -117,8 +117,27 @@ def run_one(mid, prop, checks, path, old, new, needs):
     return res
 
 
+NEG_MODELS = [("MC_Pipeline.tla", "MC_Pipeline_fast_exp.cfg", "Correct"), ("MC_Pipeline.tla", "MC_Pipeline_err_scale.cfg", "Correct"),
+              ("MC_IntParse.tla", "MC_IntParse_bad.cfg", "StrategyIsExact")]
+
+
+def negative_models():
+    """negative controls of the bounded models: each of these configurations must violate its invariant"""
+    sys.path.insert(0, os.path.join(ROOT, "tools"))
+    import vlib
+    ok = True
+    for (mod, cfg, inv) in NEG_MODELS:
+        m = vlib.run_model(mod, cfg, workers=4, timeout=900)
+        hit = (not m["ok"]) and ("Invariant %s is violated" % inv) in m["out"]
+        print("negative control %s/%s: %s" % (mod, cfg, "violates %s as expected" % inv if hit else "UNEXPECTED: no violation"))
+        ok = ok and hit
+    return ok
+
+
 def main():
     args = sys.argv[1:]
+    if "--models" in args:
+        return 0 if negative_models() else 1
     if "--list" in args:
         for m in M:
             print(m[0], m[1], m[3], "-", m[6])
